@@ -76,7 +76,8 @@ CLAIMED["C22"] = ("Proof of the comparison performed by gnmidiff.DiffSetRequest 
     "intents - minimalSetRequestIntent, flattenOCJSON and the path-string functions are outside this check.", "5 (C22)", "")
 
 GENNOTE = ("The verified text is the output of the working tree's generator, produced on every run (go build ./generator, run on the schema corpus: "
-    "/verif/schemas/vlists.yang with every supported key type, and the repository's ctestschema (compressed) and utestschema (uncompressed) test schemas) "
+    "/verif/schemas/vlists.yang with every supported key type and the repository's ctestschema (compressed paths) in the quick tier, plus utestschema "
+    "(uncompressed) in the thorough tier) "
     "and loaded through a file overlay; the contracts are templates in /repo/gogen/zz_contracts_verif.go instantiated once per generated list, with the key "
     "leaves of each list taken from the YANG source (goyang), not from the helpers under proof. The quantifier over schemas is sampled by the corpus; the "
     "quantifiers over key values, map contents and operation pre-states (every state satisfying the representation invariant, hence every history of calls) "
@@ -114,6 +115,27 @@ CLAIMED["C19"] = ("Proof of the RFC 7951 scalar rule in ygot.writeIETFScalarJSON
     "unchanged, so 8/16/32-bit integers and booleans stay JSON numbers / booleans. Not covered: which kind reaches this function (jsonValue / structJSON dispatch "
     "- reflection walkers), base64 of binary, [null] for empty, enumeration names (C17), module-name prefixes (prependmodsJSON), encoding/json itself.",
     "5 (C19)", "")
+
+CLAIMED["C05"] = ("Proof of the conflict-detection kernels of MergeStructs (the merge itself, a reflection walker, is not covered): orderedMapKeysMergeable returns an error "
+    "when either key list cannot be read, accepts whenever the two ordered lists' key lists are disjoint, and accepts only if they are disjoint or every source key "
+    "occurs in the destination (loop invariant over the in-order scan; keysDisjoint and srcKeysIsSubset proved equal to the set predicates, with map-range ghost "
+    "sets); uniqueSlices returns true exactly when no element of a DeepEquals an element of b (nested loop invariants; reflect.Value.Len/Index uninterpreted); "
+    "fieldOverwriteEnabled / mergeEmptyMapsEnabled are true exactly when an option of that type is present. Not covered: the same-order (subsequence) "
+    "requirement itself (needs induction), leaf conflict detection, the set-union result, input non-mutation and commutativity (copyStruct and friends).",
+    "5 (C05)", "")
+
+CLAIMED["C07"] = ("Proof of the element-count rule of tree validation: validateListAttr reports no error exactly when the size of the value (ordered map Len, or length "
+    "of the Go slice / map) is at least min-elements and, when max-elements is non-zero, at most max-elements, and reports an error for a nil schema, missing list "
+    "attributes or a value of another kind; validateLeafList is proved to report every leaf-list whose element count is outside its bounds (it had no such "
+    "check: repaired); the error-accumulation helpers util.AppendErr / AppendErrs never lose an error. The per-element check validateLeaf, reflect.Value.Len and "
+    "GoOrderedMap.Len are uninterpreted. Not covered: enumeration / identity membership, union member fitting, list key agreement (checkKeys), leaf-list "
+    "uniqueness, choice/case exclusivity, leafrefs - all inside reflection walkers; ranges, lengths and patterns are C06.", "5 (C07)", "")
+
+CLAIMED["C24"] = ("Proof of the type agreement between the two directions of protomap for ywrapper fields: every entry parseField adds to the path map for a field "
+    "whose message is a UintValue / StringValue / BytesValue wrapper has dynamic type uint64 / string / []byte, and makeWrapper accepts exactly such a value for a "
+    "field of that wrapper type (no error, wrapper produced) and reports 'not a wrapper' only for other message types. protobuf reflection (descriptors, "
+    "NewField, Message, Interface) is uninterpreted. Not covered: lists, leaf-lists, unions, enums, keyed lists, path annotation look-up and message equality "
+    "of the full round trip.", "5 (C24)", "")
 
 NA = {
     "C01": "RFC7951 JSON round-trip is a relation between two reflection walkers (structJSON/jsonValue vs unmarshalStruct/unmarshalList) over arbitrary generated struct types; no function-level contract within this verifier's reach carries it (no reflect memory model). Scalar kernels are decided under C18/C19 where claimed.",
